@@ -284,6 +284,14 @@ def mutate(rng, v, gen):
                 # hide one visible field
                 k = rng.choice(vf)[0]
                 return ("o", tuple(layers + [((k, "::", ("n", 0)),)]))
+        if r < 0.85:
+            vf = visible_fields(layers)
+            if vf:
+                # same number of visible fields, different set: one field goes hidden WITH its value, a new one appears
+                k, x = rng.choice(vf)
+                fresh = [q for q in KEYS + ["zz"] if q not in [f for f, _ in vf]]
+                nk = rng.choice(fresh)
+                return ("o", tuple(layers + [((k, "::", x), (nk, ":", rng.choice([x, gen(rng)])))]))
         vf = visible_fields(layers)
         if vf:
             k, x = rng.choice(vf)
@@ -333,7 +341,11 @@ CORPUS_POOLS = [
      ("o", ((),)), ("o", ((("h", "::", ("e",)),),)), ("o", ((("a", ":", ("n", 1)), ("h", "::", ("f",))),)),
      ("o", ((("a", ":", ("n", 9)), ("b", ":", ("n", 2))),)),
      ("o", ((("a", ":", ("n", 1)), ("b", ":", ("n", 2)), ("c", ":", ("n", 3))),)),
-     ("o", ((("a", ":", ("n", 1)), ("b", ":", ("n", 9)), ("c", ":", ("n", 3))),))],
+     ("o", ((("a", ":", ("n", 1)), ("b", ":", ("n", 9)), ("c", ":", ("n", 3))),)),
+     ("o", ((("a", ":", ("n", 1)), ("b", "::", ("n", 2)), ("c", ":", ("n", 3))),)),
+     ("o", ((("a", ":", ("n", 1)), ("b", "::", ("n", 2))), (("c", ":", ("n", 3)),))),
+     ("o", ((("a", "::", ("n", 1)), ("b", ":", ("n", 2)), ("c", ":", ("n", 3))),)),
+     ("o", ((("a", ":", ("n", 1)), ("c", ":", ("n", 3))),))],
     [("z",), ("b", True), ("b", False), ("n", 0), ("n", 1), ("s", ()), ("a", ()), ("o", ((),)), ("f",), ("e",),
      ("s", (0x31,)), ("a", (("z",),)), ("a", (("f",),))],
     [("a", (("n", 1), ("e",))), ("a", (("n", 2), ("e",))), ("a", (("n", 1), ("n", 2))), ("a", (("e",), ("n", 1))),
